@@ -9,7 +9,7 @@ use crate::model::*;
 use crate::steps::*;
 use crate::sym;
 use crate::worlds::{w1, w3, wt};
-use crate::{cover, harness};
+use crate::{cover, harness, native_only};
 use gecs::prelude::*;
 use gecs::version::{ArchetypeVersion, SlotVersion};
 
@@ -438,4 +438,62 @@ harness! {
     #[cfg_attr(kani, kani::stub(gecs::version::SlotVersion::next, stub_slot_next))]
     #[cfg_attr(kani, kani::stub(gecs::version::ArchetypeVersion::next, stub_arch_next))]
     fn c10_overflow_destroy_tokens_typed_2() unwind(18) { overflow_in_destroy_tokens::<2>(1) }
+}
+
+// The k-th `Clone::clone` really panics during `world.clone()` (native only: needs unwinding).
+// Confirms the MIR unwind fact of E2: whatever the unwinding drops must have been constructed.
+native_only! {
+    fn c10_native_clone_panics_at_k() {
+        use wt::*;
+        reset();
+        let k = sym::any_u8();
+        sym::assume(k >= 1 && k <= 3);
+        let mut world = WT::with_capacity(WTCapacity { arch_tok: 4 });
+        let mut i = 0;
+        while i < 3 {
+            world.create::<ArchTok>((Tok(i), Zt));
+            i += 1;
+        }
+        unsafe {
+            PANIC_AT = k;
+            CB_CALLS = 0;
+            ON_CLONE = Some(panic_at_k);
+        }
+        let r = std::panic::catch_unwind(std::panic::AssertUnwindSafe(|| world.clone()));
+        unsafe { ON_CLONE = None };
+        assert!(r.is_err(), "HARNESS-BOUND: the clone did not panic");
+        unsafe {
+            // only tokens that were actually constructed by Clone::clone may have been dropped
+            let mut i = 0;
+            while i < 8 {
+                assert!(DROPS[8 + i] <= CLONES[i], "C10: unwinding out of clone() dropped a component that was never constructed (uninitialised cell)");
+                assert!(DROPS[i] == 0, "C10: unwinding out of clone() dropped a component of the SOURCE world");
+                i += 1;
+            }
+        }
+        // the source world is intact, can be cloned again and dropped
+        assert!(world.arch_tok.len() == 3);
+        let c = world.clone();
+        drop(c);
+        drop(world);
+        unsafe {
+            let mut i = 0;
+            while i < 3 {
+                assert!(DROPS[i] == 1, "C10: source world does not own its components exactly once after a panicking clone");
+                i += 1;
+            }
+        }
+    }
+}
+
+#[cfg(not(kani))]
+static mut PANIC_AT: u8 = 0;
+#[cfg(not(kani))]
+fn panic_at_k(_id: u8) {
+    unsafe {
+        CB_CALLS += 1;
+        if CB_CALLS == PANIC_AT {
+            panic!("user Clone::clone panics at call k");
+        }
+    }
 }
